@@ -52,11 +52,12 @@ def _weight(r):
     return w
 
 
-def build_requests(ctx, lang, methods, stream):
+def build_requests(ctx, lang, methods, stream, tier=None, scale=None):
     """-> (requests, uncovered [(name, why)])"""
     reqs = []
     uncovered = []
-    scale = float(ctx.opts.get("scale", "1"))
+    tier = tier or ctx.tier
+    scale = float(ctx.opts.get("scale", "1")) if scale is None else scale
     only = ctx.opts.get("only")
     for mi, name in enumerate(sorted(methods)):
         meth = methods[name]
@@ -74,7 +75,7 @@ def build_requests(ctx, lang, methods, stream):
                 meth.kinds, ", ".join("%s: %s" % p for p in meth.params), entry.kinds)))
             continue
         rng = ctx.rng(stream, mi)
-        for ops in A.gen_requests(meth, entry, rng, ctx.tier, scale):
+        for ops in A.gen_requests(meth, entry, rng, tier, scale):
             reqs.append(Req(len(reqs), meth, entry, ops))
     return reqs, uncovered
 
@@ -149,6 +150,9 @@ def judge(ctx, lang, reqs, work, prep):
     for r in reqs:
         if r.status is None:
             ctx.count(lang + "_unanswered")
+            continue
+        if r.status == "notrun":
+            ctx.count(lang + "_not_run_refusal_predicted")
             continue
         shape = A.shape(r.meth.kinds, r.ops)
         ctx.observe((lang, r.name, shape))
@@ -402,9 +406,8 @@ mod c08gen {
                 while asm.buffer.position() < target { asm.nop(); }
                 asm.bind_label(l);
             } else {
-                asm.buffer.set_position(target);
-                asm.bind_label(l);
-                asm.buffer.set_position_end();
+                // as if (target - position) / 4 further instructions had been emitted (bind_label binds to the buffer end)
+                l.bind_to(target);
             }
         }
         true
@@ -553,13 +556,28 @@ def run_dora_requests(ctx, exe, ids, reqs):
         return [str(r.idx), str(ids[r.name]), str(len(vals))] + [str(v) for v in vals]
 
     byidx = {r.idx: r for r in reqs}
+    refused_cls = {}
+    per_class = int(ctx.opts.get("dora_refusals_per_class", 2))
+
+    def cls(r):
+        return (r.name, A.shape(r.meth.kinds, r.ops))
 
     def worker(chunk):
         procs = 0
-        pos = 0
         crashes = []
-        while pos < len(chunk):
-            batch = chunk[pos:]
+        while True:
+            # a refusal costs a process: once a (method, operand-shape class) has been refused `per_class` times the
+            # remaining requests of that class are not run
+            batch = []
+            for r in chunk:
+                if r.status is not None:
+                    continue
+                if refused_cls.get(cls(r), 0) >= per_class:
+                    r.status = "notrun"
+                    continue
+                batch.append(r)
+            if not batch:
+                break
             args = []
             for r in batch:
                 args += argv_of(r)
@@ -596,12 +614,11 @@ def run_dora_requests(ctx, exe, ids, reqs):
                     r.status = "refused"
                     r.loc = "exit %s" % rc
                     r.msg = (first[0] if first else "")[:120]
-                done += 1
-            pos += done
+                    refused_cls[cls(r)] = refused_cls.get(cls(r), 0) + 1
         return procs
 
     n = max(1, core.NCPU)
-    size = 300
+    size = 250
     chunks = [reqs[k:k + size] for k in range(0, len(reqs), size)]
     with ThreadPoolExecutor(max_workers=n) as ex:
         procs = sum(ex.map(worker, chunks))
@@ -619,10 +636,10 @@ def run_dora(ctx, work):
     for name in ds["free"]:
         if name not in A.DORA_FREE_IGNORED:
             ctx.violation("c08:uncovered-method:dora.%s" % name, "free public function `%s` of arm64.dora is not covered" % name)
-    if "scale" not in ctx.opts:
-        ctx.opts["scale"] = ctx.pick("0.5", "0.35")
-    saved_tier = ctx.tier
-    reqs, uncovered = build_requests(ctx, "dora", methods, "dora-requests")
+    # covering sample in both tiers: single-operand register sweeps + boundary sweeps (the exhaustive pair sweeps are
+    # run against the Rust assembler only)
+    reqs, uncovered = build_requests(ctx, "dora", methods, "dora-requests", tier="quick",
+                                     scale=float(ctx.opts.get("dora_scale", ctx.pick("0.5", "3"))))
     for name, why in uncovered:
         ctx.violation("c08:uncovered-method:dora.%s" % name,
                       "public method `%s` of pkgs/boots/assembler/arm64.dora is not covered by the C08 tables: %s" % (name, why))
@@ -640,8 +657,16 @@ def run_dora(ctx, work):
     prep = prepare(ctx, reqs, work)
     # a refusal costs one process: all requests LLVM accepts are run, of the unencodable ones a sample that
     # covers every (method, operand-shape class) first
-    legal = [r for r in reqs if r.pred]
-    illegal = [r for r in reqs if not r.pred]
+    rust_out = getattr(ctx, "c08_rust_outcomes", {})
+
+    def likely_refused(r):
+        if not r.pred:
+            return True
+        o = rust_out.get((r.name, A.shape(r.meth.kinds, r.ops)))
+        return o is not None and o[0] == o[1]      # the Rust assembler refused every request of this class
+
+    legal = [r for r in reqs if not likely_refused(r)]
+    illegal = [r for r in reqs if likely_refused(r)]
     rng = ctx.rng("dora-illegal-sample")
     rng.shuffle(illegal)
     seen = set()
@@ -652,8 +677,8 @@ def run_dora(ctx, work):
         seen.add(k)
     budget = int(ctx.opts.get("dora_illegal", ctx.pick(1500, 8000)))
     chosen = (first + rest)[:budget]
-    ctx.count("dora_unencodable_requests_generated", len(illegal))
-    ctx.count("dora_unencodable_requests_run", len(chosen))
+    ctx.count("dora_refusal_expected_generated", len(illegal))
+    ctx.count("dora_refusal_expected_run", len(chosen))
     reqs = legal + chosen
     run_dora_requests(ctx, exe, ids, reqs)
     for r in reqs:
@@ -712,6 +737,13 @@ def run(ctx):
     if "rust" in parts:
         run_rust(ctx, reqs, work)
         covered = judge(ctx, "rust", reqs, work, prepare(ctx, reqs, work))
+        out = {}
+        for r in reqs:
+            if r.status in ("ok", "refused"):
+                o = out.setdefault((r.name, A.shape(r.meth.kinds, r.ops)), [0, 0])
+                o[0] += r.status == "refused"
+                o[1] += 1
+        ctx.c08_rust_outcomes = out
         ctx.count("rust_methods_exercised", len(covered))
         for r in reqs[:: max(1, len(reqs) // 5)][:5]:
             ctx.sample({"assembler": "rust", "request": _req_text(r), "status": r.status,
